@@ -227,3 +227,14 @@ _amend('C11', "the two projection loops skip no constraint (no continue / break)
 _amend('C13', "the vetting predicate has exactly the three documented disjuncts;", "the vetting predicate has exactly the three documented disjuncts (a determinant-sign test in place of the eigenvalue test is refuted);")
 _amend('C18', "(deprecated aliases: replacement taken from the alias only on a path that emits FutureWarning; alias attribute constant 'deprecated')", "(deprecated aliases: replacement taken from the alias only on a path where the alias was supplied and that emits FutureWarning; every alias is mapped onto its parameter on some path; alias attribute constant 'deprecated')")
 _amend('C19', "lattice Inv / Abs / Lin(W) / Dep for translations", "lattice Inv / Abs / AbsT / Lin(W) / Dep / Unk for translations, with a may-annihilate-constants bit on invariant matrices so that Laplacian / incidence forms are 'unknown', never 'dependent'", key='technique')
+
+# DESIGN.md 10.10 - 10.11
+_amend('C06', "Which concrete arrays scikit-learn's check_array rejects,", "integer arrays of any (unsigned, narrow) dtype give the float64 result: check_input, interpreted with its default options on signed / unsigned integer input on all six routes, hands out floating-point data (or else every sum / difference / product / power computed in the data's integer dtype in any of the 103 data-taking methods and in the get_metric closure is reported) - this rule found the unsigned wrap-around defects F19 / F20, repaired; the pair-label test accepts exactly the vectors with all |y_i| = 1 (46 concrete label vectors interpreted); validate_vector on eleven input shapes. Which concrete arrays scikit-learn's check_array rejects,")
+_amend('C06', "decision tables by abstract i", "IntDomain dtype flow (float / follows-the-user's-data), decision tables by abstract i", key='technique')
+_amend('C09', "LFDA keeps eigenvectors by decreasing eigenvalue, stores vecs.T and handles exactly the documented embedding_type values;", "the statements of LFDA.fit after the eigen-solver call, interpreted on symbolic eigen-pairs for each documented embedding_type, store (top-dim eigenvectors by decreasing eigenvalue)^T, scaled by the square roots of their own eigenvalues for 'weighted', replaced by Q of their QR factorisation for 'orthonormalized' (QR before ordering, an SVD basis, unordered values are refuted; dispatch tables and helpers are read like if-chains), and the constructor accepts exactly the documented values;")
+_amend('C09', "structural rules on RCA centring and LFDA ordering / embedding table,", "structural rules on RCA centring, interpretation of LFDA's ordering / embedding statements on symbolic eigen-pairs (minterp),", key='technique')
+_amend('C12', "the per-constraint loss is w (sqrt(d_ab)-sqrt(d_cd))^2 and the gradient coefficients are its symbolic derivatives, the regulariser is tr(M M0^-1) - logdet M with gradient M0^-1 - M^-1;", "_comparison_loss, _total_loss and _gradient, interpreted on four quadruplets (two violated, one satisfied, one tie; perfect-square distances, weights 2 3 5 7), evaluate to sum over d_ab > d_cd of w (sqrt d_ab - sqrt d_cd)^2 = 114, tr(M M0^-1) - logdet M + 114 and M0^-1 - M^-1 + sum of w [(1 - sqrt(d_cd/d_ab)) v_ab v_ab^T + (1 - sqrt(d_ab/d_cd)) v_cd v_cd^T] as a formal combination of outer products (loops, helpers, einsum and (V^T * c) V forms alike);")
+_amend('C12', "static analysis: guard normalisation", "static analysis: interpretation of loss / regulariser / gradient on a finite scenario with exact rationals (minterp), guard normalisation", key='technique')
+_amend('C11', "Decides: ITML's duals start at zero", "Decides: _fit, interpreted for two sweeps over five pairs with bounds (3, 11) and gamma = 2 (data entering only through a table of values v^T A v, the matrix a version counter), makes exactly the ten rank-one updates (pair, version, beta) of the documented cyclic projections - alpha, beta, dual and slack updates exact in rationals, similar pairs then dissimilar ones, every sweep - whether written as two loops, one fused loop, step helpers or a table of constraint kinds; ITML's duals start at zero")
+_amend('C11', "static analysis: inductive sign invariant", "static analysis: interpretation of two projection sweeps on a finite scenario with exact rationals (minterp), inductive sign invariant", key='technique')
+_amend('C14', "written only as a copy of the initial matrix or by A_old[:] = A under `satisfy`,", "written only as a copy of the initial matrix or by A_old[:] = A under `satisfy` and a comparison fD(dissimilar pairs, A_old) < fD(dissimilar pairs, A) of one objective at the kept and the new iterate (structural matcher),")
